@@ -47,7 +47,7 @@ PROPS["C04"] = make_prop("C04", [ES("C04", "C04", "nodes"), ES("C04", "C15", "no
     "all pairs of operand values x 6 operators x operand forms embedded as $[?lhs op rhs]; the child is selected iff the spec's Compare is true; " + NT, COMMON_ASSUME)
 PROPS["C05"] = make_prop("C05", [ES("C05", "C05", "order"), lambda ev, tier, seed: stress_stage(ev, "C05", tier, seed)],
     "logical expressions of depth <= 3 over test/comparison/nested-filter atoms applied to arrays and objects of children covering presence/absence and falsy values; selected children compared in order; " + NT, COMMON_ASSUME)
-PROPS["C10"] = make_prop("C10", [ES("C10", "C10", "nodes,j"), TE("C10", {"fn"})],
+PROPS["C10"] = make_prop("C10", [ES("C10", "C10", "nodes,j"), TE("C10", {"fn"}), TL("C10", {"nodes", "outcome"})],
     "regex ASTs of depth <= 2 rendered to patterns x subject strings (match and search), and length/count/value over every JSON type and NOTHING; " + NT,
     COMMON_ASSUME + ["patterns containing ^ or $ are outside the universe (RFC 9485 reads them as literals, the implementation's dialect as anchors)"])
 PROPS["C11"] = make_prop("C11", [tlaps_stage, slice_loop_stage, ES("C11", "C11", "order"), TE("C11", {"slice"}), TL("C11", {"nodes", "order", "outcome"})],
@@ -58,7 +58,7 @@ PROPS["C12"] = make_prop("C12", [lambda ev, tier, seed: session_stage(ev, "C12",
 PROPS["C14"] = make_prop("C14", [ES("C14", "C14", "nodes")],
     "five extension functions over all (x, L) pairs of element values, arrays of them, non-arrays and missing members; also negated and with $-rooted argument; " + NT,
     COMMON_ASSUME + ["1 vs 1.0 pairs are excluded (the property does not say which equality)"])
-PROPS["C15"] = make_prop("C15", [ES("C15", "C15", "nodes,order,paths", mode="paths"), ES("C15", "C01", "j"), ES("C15", "C04", "j"), ES("C15", "C05", "j"), ES("C15", "C10", "j")],
+PROPS["C15"] = make_prop("C15", [ES("C15", "C15", "nodes,order,paths", mode="paths"), ES("C15", "C01", "j"), ES("C15", "C04", "j"), ES("C15", "C05", "j"), ES("C15", "C10", "j"), GS("C15", "C13", "nodes,jgrammar")],
     "every behaviour executed on serde_json::Value and on the second Queryable implementation J (insertion-ordered objects, separate int/float variants); paths and values compared position by position; " + NT,
     COMMON_ASSUME + ["J (harness/src/j.rs) is a faithful implementation of the trait as documented"])
 
